@@ -104,3 +104,34 @@ Theorem C18_slice_arithmetic_is_the_code : forall n f v b,
   fst (go_slice_bounds n f v b) = (sl_from n f, sl_to n (sl_from n f) (if b then n else v)).
 Proof. exact e2_slice_bounds. Qed.
 Print Assumptions C18_slice_arithmetic_is_the_code.
+
+(* the padding filters' decisions and blank counts are the code's: [go_center], [go_ljust], [go_rjust]
+   (gen/Scalar.v) are translated from /repo on every run, guards included *)
+Theorem C18_center_arithmetic_is_the_code : forall x p w, int_of p = Ok w ->
+  center_body x p =
+  (let '(unchanged, refuses, _, _, _, lft, rgt) := go_center w (val_len (vv x)) in
+   if unchanged then Ok x
+   else if refuses then ferr
+   else bind (str_of x) (fun s => okv (VStr (spaces lft ++ s ++ spaces rgt)))).
+Proof. exact e2_center_body. Qed.
+Print Assumptions C18_center_arithmetic_is_the_code.
+
+Theorem C18_ljust_arithmetic_is_the_code : forall x p w, int_of p = Ok w ->
+  ljust_body x p =
+  (let '(refuses, times) := go_ljust w (val_len (vv x)) in
+   if refuses then ferr else bind (str_of x) (fun s => okv (VStr (s ++ spaces times)))).
+Proof. exact e2_ljust_body. Qed.
+Print Assumptions C18_ljust_arithmetic_is_the_code.
+
+Theorem C18_rjust_arithmetic_is_the_code : forall x p w, int_of p = Ok w ->
+  rjust_body x p =
+  (let '(refuses, width) := go_rjust w in
+   if refuses then ferr
+   else bind (str_of x) (fun s => okv (VStr (spaces (width - Z.of_nat (length (runes s))) ++ s)))).
+Proof. exact e2_rjust_body. Qed.
+Print Assumptions C18_rjust_arithmetic_is_the_code.
+
+Theorem C18_get_digit_guard_is_the_code : forall i l,
+  go_get_digit i l = (((i <=? 0) || (l <? i))%Z, i, l).
+Proof. exact e2_get_digit. Qed.
+Print Assumptions C18_get_digit_guard_is_the_code.
